@@ -181,7 +181,22 @@ class Ctx:
                 if ans == "sat":
                     status, backend = "refuted", nm
                     break
+        cross = None
+        if status == "proved" and backend == "z3-5.1(py)" and os.environ.get("VERIF_CROSS") == "1":
+            # thorough tier: every obligation z3 5.1 proved is re-solved, from the same SMT-LIB text, by the two other
+            # installed solvers; a `sat` answer there is a disagreement (checker broken), `unknown`/timeout is recorded
+            smt2 = self.solver.to_smt2()
+            cross = {}
+            for cmd, nm in ((["/usr/bin/cvc5", "--tlimit=20000"], "cvc5-1.0.3"), (["/usr/bin/z3", "-T:20"], "z3-4.8.12")):
+                if os.path.exists(cmd[0]):
+                    cross[nm] = run_cli_solver(cmd, smt2, 20)
+            if any(v == "sat" for v in cross.values()):
+                status, reason = "disagreement", f"solvers disagree: z3-5.1 unsat, {cross}"
+            else:
+                smt2 = None
         self.solver.pop()
+        if cross is not None:
+            info = dict(info or {}, cross=cross)
         ob = Obligation(name, status, backend, time.time() - t0, model=model, info=info, smt2=smt2,
                         reason=reason, path=list(self.decisions[: self.pos]))
         self.obligations.append(ob)
